@@ -579,7 +579,13 @@ class Cfg:
         self.boolish_values = 0.15   # comparison/logical results in value positions
         self.explicit_regs = 0.07    # explicit / alias registers among the leaves and destinations
         self.chains = 0.12           # chained assignments a = b op= e
+        self.op_names = 0.06         # locals named like the compiler's intermediate values
         self.__dict__.update(kw)
+
+
+# base names the transformer gives its own ops (before the numeric suffix)
+OP_LIKE_NAMES = ["cond", "branch", "seq", "seq_then", "seq_else", "empty", "nop", "op_ADD", "op_ASSIGN", "op_LT", "op_AND",
+                 "cast_st32", "cast_ut8", "c_call", "gcc_expr", "imm_assign", "const_pos1", "op_INC", "op_RSHIFT", "ml_EA", "ms_cast_ut8"]
 
 
 class Gen:
@@ -592,11 +598,20 @@ class Gen:
     def reset(self):
         self.locals: dict[str, tuple[bool, int]] = {}
         self.nvar = 0
+        self.used_names = set()
         self.loop_vars = []
         self.need = set()
         self.favs = None
 
     def fresh(self):
+        # a few locals are called like the compiler's own intermediate values (`cond`, `branch`, `seq`, ...):
+        # a behaviour may use any identifier, and the names of ops must never capture a variable
+        if self.r.random() < self.c.op_names:
+            cand = [n for n in OP_LIKE_NAMES if n not in self.used_names]
+            if cand:
+                n = self.r.choice(cand)
+                self.used_names.add(n)
+                return n
         self.nvar += 1
         return f"v{self.nvar}"
 
@@ -804,9 +819,19 @@ class Gen:
             self.loop_vars.append(v)
             body = self.block(nest - 1)
             self.loop_vars.pop()
-            if r.random() < 0.3:
+            y0 = r.random()
+            if y0 < 0.3:
                 self.stats["for_data_dependent"] += 1
                 bound = ("bin", "&", ("reg", r.choice(["RsV", "RtV"]), (True, 32)), self.small_lit([7]))
+            elif y0 < 0.45 and self.locals:
+                # the bound reads a local the body may assign (C evaluates the condition before every iteration)
+                self.stats["for_bound_reads_local"] += 1
+                n = r.choice(sorted(self.locals))
+                bound = ("bin", "&", ("var", n, self.locals[n]), self.small_lit([7]))
+            elif y0 < 0.55:
+                # the bound reads the counter itself
+                self.stats["for_bound_reads_counter"] += 1
+                bound = ("bin", "-", ("bin", "&", ("reg", r.choice(["RsV", "RtV"]), (True, 32)), self.small_lit([15])), ("var", v, (False, 32)))
             else:
                 bound = self.small_lit([0, 1, 2, 3, 4, 8])
             if r.random() < 0.25:
